@@ -21,7 +21,7 @@
 (*    conjunction of all clauses is accumulated in ok and checked as an    *)
 (*    invariant by TLC over all interleavings.                             *)
 (***************************************************************************)
-EXTENDS Naturals, Integers, Sequences, FiniteSets, TLC, DbusTypes, ClauseLib
+EXTENDS Naturals, Integers, Sequences, FiniteSets, TLC, DbusTypes, ClauseLib, TlsPolicyDecl
 
 Ends == {"A", "P"}
 Peer(e) == IF e = "A" THEN "P" ELSE "A"
@@ -130,6 +130,10 @@ WireClauses(ev) ==
     C({"C09"}, "ReplyFlagOnlyWhenResponding", (m.t = "TERM" /\ IsReply(m.flags)) => hTerm[e]),
     C({"C09"}, "UnsolicitedTermHasLocalCause",
         (m.t = "TERM" /\ ~IsReply(m.flags) /\ scen.kind # "policy") => termReq[e] \/ idleFired[e]),
+    C({"C15"}, "SessInitOnlyWhenTlsUseMatchesPolicy",
+        (m.t = "INIT" /\ scen.kind = "policy") => MaySendInit(scen.pol[e])),
+    C({"C15"}, "ContactFailureReasonOnAuthnFailure",
+        (m.t = "TERM" /\ scen.kind = "policy" /\ ~IsReply(m.flags)) => m.reason = 4 /\ ~AuthnOK(scen.pol[e])),
     C({"C14"}, "IdleTimeoutReason",
         (m.t = "TERM" /\ ~IsReply(m.flags) /\ idleFired[e] /\ ~termReq[e]) => m.reason = 1)
   }
@@ -151,6 +155,10 @@ SigClauses(ev) ==
           (v.result = "success" /\ Pair) => v.bid \in SuccessIds(rfin[p])),
       C({"C01"}, "SuccessReportsWholeLength",
           (v.result = "success") => \E i \in DOMAIN queued[e] : queued[e][i].id = v.bid /\ queued[e][i].len = v.len)
+    } ELSE {})
+  \cup
+  (IF ev.n = "session_state_changed" /\ scen.kind = "policy" /\ v.state = "established" THEN {
+      C({"C15"}, "EstablishedOnlyWhenPolicyAllows", MayEstablish(scen.pol[e]))
     } ELSE {})
   \cup
   (IF ev.n = "recv_bundle_finished" /\ ev.i.nargs = 3 THEN {
@@ -236,6 +244,16 @@ FinalClauses(ev) ==
             /\ rxOct[e] = txOct[p]) => v.idle),
     CK({"C17"}, "OutOfPlaceMessagesAnswered", owed[e] = 0,
         "unknown_type_never_answered", unk[e] /\ owed[e] = 1),
+    C({"C15"}, "TlsUsedExactlyWhenBothOfferAndHandshakeSucceeds",
+        (scen.kind = "policy" /\ ~v.closed) => v.secure = Secure(scen.pol[e])),
+    C({"C15"}, "EstablishedWhenPolicyAllows",
+        (scen.kind = "policy" /\ MayEstablish(scen.pol["A"]) /\ MayEstablish(scen.pol["P"]))
+           => v.state = "established" /\ ~v.closed),
+    C({"C15"}, "NotEstablishedOtherwise",
+        (scen.kind = "policy" /\ ~MayEstablish(scen.pol[e])) => v.state # "established"),
+    C({"C15"}, "AuthnFailureEndsWithContactFailure",
+        (scen.kind = "policy" /\ TlsUseOK(scen.pol[e]) /\ Secure(scen.pol[e]) /\ ~AuthnOK(scen.pol[e]) /\ hInit[e])
+           => (\E i \in DOMAIN wire[e] : wire[e][i].t = "TERM" /\ wire[e][i].reason = 4) \/ closed[e]),
     C({"C17"}, "OwnTransfersUnaffected",
         (~Pair /\ IsReal(e) /\ scen.cooperative /\ ~closed[e] /\ ~TermOnWire(e) /\ ~hTerm[e] /\ esc[e] = 0 /\ ~unk[e])
            => /\ Ids(queued[e]) \ refused[e] = SuccessIds(sfin[e])
